@@ -1,7 +1,8 @@
 """C09 — lifecycle: legal transitions only, Hayflick bound, absorbing end states, no hang.
 
 Protocol (one op per line; the first line of a case is `cfg`):
-  cfg maxOps errThr allowRenew lifeQ|none idleQ|none     lifeQ = quarter hours, idleQ = quarter minutes (exact as
+  cfg maxOps errThr allowRenew lifeQ|none idleQ|none [loud]    (`loud`: silent=False, console output swallowed)
+                                                          lifeQ = quarter hours, idleQ = quarter minutes (exact as
                                                           float hours/minutes; 0 is the falsy-argument glue case);
                                                           a new world: clock 0, one lifecycle in slot 0, selected
   new k maxOps errThr allowRenew lifeQ|none idleQ|none   construct a lifecycle NOW in slot k (replacing), select it
@@ -116,6 +117,7 @@ class C09(Prop):
         "float comparisons length/max <= 0.1 and errors/ops >= 0.5 coincide with the exact fractions for the sizes explored",
         "threading.Lock / RLock semantics: a holder re-acquiring a Lock blocks forever, an RLock nests",
         "the clock is datetime.now() of the telomere module, replaced by a virtual microsecond clock",
+        "console output (silent=False, a quarter of the cases) goes to a text stream that accepts it",
         "sequential histories (one caller thread at a time); get_* accessors take no lock and are not part of the automaton",
     ]
     trusted_modelled = ["modelled, not verified: the nine public mutators of Telomere as Operon.Telomere.step; "
@@ -225,7 +227,8 @@ class C09(Prop):
         if prof in ("resets", "multi"):
             n = rng.choice([4, 6, 7, 8, 10, 12, 16, 24, 32])
         unit_bias = prof in ("resets", "multi") and rng.random() < 0.6
-        lines = [self._cfg(m, e, a, l, i)]
+        loud = " loud" if rng.random() < 0.25 else ""
+        lines = [self._cfg(m, e, a, l, i) + loud]
         mcur = {0: m}
         cur = 0
         for _ in range(n):
@@ -285,7 +288,7 @@ class C09(Prop):
                         if v not in ("none", "0"):
                             lims.append(int(v) * unit)
                 mcur[cur] = m2
-                lines.append("new %d %s" % (cur, self._cfg(m2, e2, a2, l2, i2)[4:]))
+                lines.append("new %d %s%s" % (cur, self._cfg(m2, e2, a2, l2, i2)[4:], " loud" if rng.random() < 0.25 else ""))
             else:
                 lines.append(op)
         return {"lines": lines, "note": f"random/{prof}"}
@@ -313,7 +316,7 @@ class C09(Prop):
         if tier == "thorough":
             plan = [(self._cfg(3, 2, True, "1", "none"), 4), (self._cfg(12, 1, False, "none", "4"), 4),
                     (self._cfg(1, 4, True, "none", "none"), 4), (self._cfg(10, 3, True, "2", "60"), 3)]
-            plan2 = [(self._cfg(12, 2, True, "none", "none"), 5), (self._cfg(4, 4, True, "none", "none"), 4)]
+            plan2 = [(self._cfg(12, 2, True, "none", "none"), 4), (self._cfg(4, 4, True, "none", "none"), 4)]
         cases = []
         for cfg, depth in plan:
             for k in range(1, depth + 1):
@@ -333,6 +336,7 @@ class C09(Prop):
     # --- implementation --------------------------------------------------------------------------------------
     def _new(self, t, fresh_clock=True):
         T = self.T
+        silent = not (len(t) >= 7 and t[6] == "loud")
         evs: list[str] = []
         mode = {"m": 0}           # 0 callbacks return, 1 on_phase_change raises, 2 on_senescence raises (after recording)
 
@@ -352,7 +356,7 @@ class C09(Prop):
             self.clock.us = 0
         obj = T.Telomere(
             max_operations=m, max_lifetime_hours=lh, idle_timeout_minutes=im, error_threshold=e, allow_renewal=a,
-            on_phase_change=on_change, on_senescence=on_sen, silent=True)
+            on_phase_change=on_change, on_senescence=on_sen, silent=silent)
         lock = RecLock(obj._lock)
         obj._lock = lock
         return obj, evs, lock, mode
@@ -384,6 +388,15 @@ class C09(Prop):
     def run_impl(self, case):
         obs = []
         self._pristine()
+        # console output as an environment axis: `cfg … loud` / `new k … loud` construct the lifecycle with silent=False (the
+        # default of the class); stdout is swallowed - the prints sit on the modelled paths (warning threshold, senescence,
+        # renewal) and must change nothing
+        import contextlib
+        import io
+        with contextlib.redirect_stdout(io.StringIO()):
+            return self._run_lines(case, obs)
+
+    def _run_lines(self, case, obs):
         slots: dict = {}          # k -> [obj, evs, lock, dead]
         cur = 0
         cfg0 = "cfg 10 3 1 none none".split()
@@ -403,12 +416,12 @@ class C09(Prop):
             reps = 1
             if (len(t) >= 3 and t[0] == "many" and _num(t[1]) is not None and 1 <= int(t[1]) <= 3000 and t[2] in MANY_OK):
                 reps, t = int(t[1]), t[2:]
-            if t and t[0] == "cfg" and len(t) == 6:
+            if t and t[0] == "cfg" and (len(t) == 6 or (len(t) == 7 and t[6] == "loud")):
                 slots.clear()
                 cur, cfg0 = 0, t
                 obs.append(construct(0, t, True))
                 continue
-            if t and t[0] == "new" and len(t) == 7 and _num(t[1]) is not None:
+            if t and t[0] == "new" and (len(t) == 7 or (len(t) == 8 and t[7] == "loud")) and _num(t[1]) is not None:
                 if not slots:
                     construct(0, cfg0, True)
                 cur = int(t[1])
@@ -543,10 +556,10 @@ class C09(Prop):
             if not t:
                 continue
             created = False
-            if t[0] == "cfg" and len(t) == 6:
+            if t[0] == "cfg" and (len(t) == 6 or (len(t) == 7 and t[6] == "loud")):
                 L, cur, cfg0, now = {0: fresh(t)}, 0, t, 0
                 created = True
-            elif t[0] == "new" and len(t) == 7 and t[1].isdigit():
+            elif t[0] == "new" and (len(t) == 7 or (len(t) == 8 and t[7] == "loud")) and t[1].isdigit():
                 cur = int(t[1])
                 L[cur] = fresh(["cfg"] + t[2:])
                 created = True
